@@ -217,6 +217,95 @@ def check_emission(rep, http):
         rep.bad('R16.c', 'sites', 'expected at least 3 HTTP effect emission sites, found %d' % n)
 
 
+REDIRECT_STATUSES = {'MovedPermanently': 301, 'Found': 302, 'SeeOther': 303, 'TemporaryRedirect': 307, 'PermanentRedirect': 308}
+
+
+def check_redirect_statuses(rep, http, f):
+    """R16.g: the statuses the middleware follows are exactly 301, 302, 303, 307 and 308 (it "stops at the first non-redirect status":
+    300, 304, 305 and 306 are 3xx but are not redirects to follow).  The set is read from the test on res.status() that guards the
+    Location branch: membership in a const table (its initialiser is read), or a match on the status (its arm values are read)."""
+    rep.rule('R16.g', 'the statuses followed as redirects are exactly 301, 302, 303, 307, 308', floor=1)
+    status_calls = [bb for bb, t in f.calls('crux_http::response::response_async::ResponseAsync::status', 'http_types_red_badger_temporary_fork::response::Response::status')]
+    if not status_calls:
+        rep.bad('R16.g', 'redirect|status-test', 'Redirect::handle no longer reads the status of the probe response')
+        return
+    found = None
+    how = ''
+
+    def from_status(op):
+        src = origins(f, op, through_casts=True)
+        return bool(src) and any(o.kind == 'call' and o.bb in status_calls for o in src)
+    # (a) TABLE.contains(&status)
+    for bb, t in f.calls('core::slice::<impl [T]>::contains'):
+        if len(t['args']) == 2 and from_status(t['args'][1]):
+            names = set()
+            for o in origins(f, t['args'][0], through_casts=True):
+                if o.kind == 'const' and o.s:
+                    c = http.consts.get(norm(o.s.replace('const ', '')))
+                    if c is not None:
+                        for b2, i2, s2 in c.stmts('assign'):
+                            rv = s2['rv']
+                            if rv['k'] == 'agg' and rv.get('ak') == 'adt' and (rv.get('adt') or '').endswith('status_code::StatusCode'):
+                                names.add(rv['variant'])
+                            elif rv['k'] == 'use' and rv['a'].get('o') == 'const' and isinstance(rv['a'].get('v'), int):
+                                names.add(rv['a']['v'])
+                if o.kind == 'agg' or (o.kind == 'rvalue' and o.stmt['rv']['k'] == 'agg'):
+                    for x in o.stmt['rv'].get('ops', []):
+                        for y in origins(f, x):
+                            if y.kind == 'agg' and (y.stmt['rv'].get('adt') or '').endswith('status_code::StatusCode'):
+                                names.add(y.stmt['rv']['variant'])
+                            elif y.kind == 'const' and isinstance(y.v, int):
+                                names.add(y.v)
+            found = names
+            how = 'membership in a table at %s' % f.where(bb)
+    # (b) match / matches! on the status
+    if found is None:
+        for sb, st in f.terms('switch'):
+            for o in origins(f, st['a']):
+                if o.kind == 'rvalue' and o.stmt['rv']['k'] == 'discr' and from_status(o.stmt['rv']['a']):
+                    vals = set(v for v, b in st['arms'])
+                    # the arms listed are the redirect side if they are the smaller set of 3xx codes
+                    found = vals
+                    how = 'match on the status at %s' % f.where(sb)
+    # (c) a crate-local predicate over the status: read its match
+    if found is None:
+        for bb, t in f.calls():
+            tgt = [g for g in http.built if g.kind in ('Fn', 'AssocFn') and g.npath == norm(t.get('resolved') or t.get('callee') or '')]
+            hit = [i for i, a in enumerate(t.get('args') or []) if from_status(a)]
+            if not tgt or not hit or 'bool' != (t['d'].get('t') or tgt[0].locals[0]):
+                continue
+            g = tgt[0]
+            for sb, st in g.terms('switch'):
+                for o in origins(g, st['a']):
+                    if o.kind == 'rvalue' and o.stmt['rv']['k'] == 'discr' and \
+                            all(x.kind == 'arg' and x.n == hit[0] + 1 for x in origins(g, o.stmt['rv']['a'])):
+                        found = set(v for v, b in st['arms'])
+                        how = 'match on the status in %s' % g.path
+            for b2, t2 in g.calls('core::slice::<impl [T]>::contains'):
+                names = set()
+                for o in origins(g, t2['args'][0], through_casts=True):
+                    if o.kind == 'const' and o.s:
+                        c = http.consts.get(norm(o.s.replace('const ', '')))
+                        if c is not None:
+                            for b3, i3, s3 in c.stmts('assign'):
+                                rv = s3['rv']
+                                if rv['k'] == 'agg' and rv.get('ak') == 'adt' and (rv.get('adt') or '').endswith('status_code::StatusCode'):
+                                    names.add(rv['variant'])
+                if names:
+                    found = names
+                    how = 'membership in a table in %s' % g.path
+    if found is None:
+        rep.bad('R16.g', 'redirect|status-test', 'cannot read the set of statuses Redirect::handle treats as redirects (the test on res.status() is neither '
+                'membership in a table nor a match): it must be exactly 301, 302, 303, 307, 308')
+        return
+    want_names = set(REDIRECT_STATUSES)
+    want_codes = set(REDIRECT_STATUSES.values())
+    ok = found == want_names or found == want_codes
+    rep.expect('R16.g', ok, 'redirect|status-set', '%s: %s' % (how, sorted(map(str, found))),
+               'Redirect::handle follows the statuses %s (%s); the documented redirects are 301, 302, 303, 307, 308 — any other 3xx (300, 304, 305) '
+               'must end the probing' % (sorted(map(str, found)), how))
+
+
 def check_redirect(rep, http):
     bodies = [f for f in http.built if f.kind == 'Closure' and f.coroutine and 'redirect::Redirect' in (f.root or '')
               and (f.root or '').endswith('::handle')]
@@ -224,6 +313,7 @@ def check_redirect(rep, http):
         rep.missing('R16.d', 'async body of Redirect::handle')
         return
     f = bodies[0]
+    check_redirect_statuses(rep, http, f)
     probes = list(f.calls('crux_http::client::Client::send'))
     finals = list(f.calls('crux_http::middleware::Next::run'))
     if len(probes) != 1 or len(finals) != 1:
